@@ -49,6 +49,50 @@ def scrape_guards_cpp(text, iface):
     return out
 
 
+def skeletons_refuse_probe(ctx_, work, rng, nb):
+    """refusal by the C, C++ and Rust skeletons alike: the nine-pairing program of the C05 harness
+    (real skeletons of all three backends) is started in its --refuse mode (rt/obj/main.c): every
+    method op is invoked directly on each implementation object with counts words that cannot be
+    the method's (all nibbles 15; 14/13/12/11; for parameterless methods every single non-zero
+    nibble).  The status must be non-zero and the implementation must not be entered."""
+    import l2obj, p_refcount
+    fails, ntry = [], 0
+    for b in range(nb):
+        methods = l2obj.gen_methods(rng, 5)
+        k = len(methods)
+        methods += [("m%d" % k, []), ("m%d" % (k + 1), [("in", "uint32", None, "p0")]), ("m%d" % (k + 2), [("out", "uint32", None, "p0")]), ("m%d" % (k + 3), [])]
+        root = os.path.join(work, "refobj%d" % b)
+        os.makedirs(root, exist_ok=True)
+        open(os.path.join(root, "l2.idl"), "w").write(l2obj.render_idl(methods))
+        if p_refcount.emit(ctx_["idlc"], root):
+            continue
+        r = p_refcount.build(root, methods, sides=p_refcount.SIDES)
+        if r.get("stage") != "run":
+            continue
+        mask = "".join("1" if not ps else "0" for _, ps in methods)
+        rc, o, e = vlib.run([os.path.join(root, "l2obj"), "--refuse", str(len(methods)), mask], timeout=120, env=dict(vlib.ENV, ASAN_OPTIONS="detect_leaks=0"))
+        side, cur, entered = None, None, False
+        for l in o.split("\n"):
+            if l.startswith("refusing "):
+                side = l.split()[1]
+            elif l.startswith("refuse "):
+                cur, entered = l, False
+            elif l.startswith("impl ") and cur:
+                entered = True
+            elif l.startswith("refused "):
+                ntry += 1
+                st = int(l.rsplit("status=", 1)[1])
+                if st == 0 or entered:
+                    fails.append({"property": ctx_["prop"], "idl": l2obj.render_idl(methods), "skeleton": side, "observed": l,
+                                  "what": "the %s skeleton %s an invocation whose counts word cannot be the method's (%s)" % (
+                                      side, "serves" if entered else "returns status 0 for", l)})
+                cur = None
+        if rc != 0:
+            fails.append({"property": ctx_["prop"], "idl": l2obj.render_idl(methods), "observed": (e or o)[-600:],
+                          "what": "a skeleton faults on an invocation with a wrong counts word (exit %s)" % rc})
+    return ntry, fails[:12]
+
+
 def run(ctx_):
     prop, tier, seed, work = ctx_["prop"], ctx_["tier"], ctx_["seed"], ctx_["work"]
     nb = 6 if tier == "quick" else 120
@@ -171,7 +215,10 @@ def run(ctx_):
                                     "what": "%s skeleton: the guard of %s reads argument slots before it has compared the counts word (an envelope with fewer slots than the method's is read out of bounds before it is refused)" % (lang, mname)})
         for bad in out["bad"][:8]:
             res["failures"].append({"property": prop, "idl": text, "method": bad[0], "perturbation": bad[1], "what": "skeleton: %s (%s %s)" % (bad[2][:500], bad[0], bad[1])})
+    sr_n, sr_fails = skeletons_refuse_probe(ctx_, work, vlib.mkrng(seed, prop + "-skeletons"), 1 if tier == "quick" else 10)
+    res["failures"] += sr_fails
     res["coverage"] = {
+        "skeletons_refuse_probe": {"wrong_counts_invocations": sr_n, "skeletons": "C, C++, Rust", "served_or_status_0": len(sr_fails)},
         "evaluations": nenv, "distinct_nontrivial": distinct,
         "rule": "%d generated interfaces of 12 methods (25%% optional, half of those without implementation); per method outside the known classes: every "
                 "counts nibble +-1 and set to 0/15, every fixed-size buffer size in {0, n-1, n+1, 2^32}, ops n+5 / 0x3FFF / 0x7FFD, op|REMOTE_BUFS, then a "
